@@ -86,6 +86,45 @@ pub fn c10(t: &dyn TypeOps, cx: &mut Cx) {
             p[8..10].copy_from_slice(&m.to_ne_bytes());
             judge(cx, &format!("major:set{}", m), &p, &format!("MajorVersionMismatch({})", m), &mut arena);
         }
+        // combinations: a lower (accepted) minor version together with every other corruption must
+        // still give that corruption's error; and the ε-copy header check does not depend on where
+        // the buffer lies (the header is parsed by value)
+        if vi == 0 {
+            let bits: Vec<u8> = if cx.tier == Tier::Thorough { (0..8).collect() } else { vec![0, 6] };
+            for byte in (0..10).chain(12..FIXED_HEADER_LEN) {
+                for &bit in &bits {
+                    let mut p = bytes.clone();
+                    p[10..12].copy_from_slice(&0u16.to_ne_bytes());
+                    p[byte] ^= 1 << bit;
+                    let exp = if byte < 8 { format!("MagicCookieError({:#x})", u64::from_ne_bytes(p[0..8].try_into().unwrap())) }
+                        else if byte < 10 { format!("MajorVersionMismatch({})", u16::from_ne_bytes(p[8..10].try_into().unwrap())) }
+                        else if byte < 13 { format!("UsizeSizeMismatch({})", p[12]) }
+                        else if byte < 21 { format!("WrongTypeHash(ser={:#x},self={:#x})", u64::from_ne_bytes(p[13..21].try_into().unwrap()), th) }
+                        else { format!("WrongAlignHash(ser={:#x},self={:#x})", u64::from_ne_bytes(p[21..29].try_into().unwrap()), ah) };
+                    judge(cx, &format!("minor0+flip{}.{}", byte, bit), &p, &exp, &mut arena);
+                }
+            }
+            for byte in 0..FIXED_HEADER_LEN {
+                if byte == 10 || byte == 11 { continue; }
+                let mut p = bytes.clone();
+                p[byte] ^= 0x10;
+                let exp = if byte < 8 { format!("MagicCookieError({:#x})", u64::from_ne_bytes(p[0..8].try_into().unwrap())) }
+                    else if byte < 10 { format!("MajorVersionMismatch({})", u16::from_ne_bytes(p[8..10].try_into().unwrap())) }
+                    else if byte < 13 { format!("UsizeSizeMismatch({})", p[12]) }
+                    else if byte < 21 { format!("WrongTypeHash(ser={:#x},self={:#x})", u64::from_ne_bytes(p[13..21].try_into().unwrap()), th) }
+                    else { format!("WrongAlignHash(ser={:#x},self={:#x})", u64::from_ne_bytes(p[21..29].try_into().unwrap()), ah) };
+                for r in [1usize, 4] {
+                    cx.evals += 1;
+                    let placed = arena.place(r, &p);
+                    let o = t.eps(placed).map(|x| x.0);
+                    cx.outcome(&o.class());
+                    if !matches!(&o, Out::Err(e) if *e == exp) {
+                        let got = match &o { Out::Ok(_) => "value".to_string(), Out::Err(e) => e.split('(').next().unwrap().to_string(), Out::Panic(p) => format!("panic:{}", panic_class(p)) };
+                        cx.violate(&format!("misplaced-buffer-header-corruption-eps-gives-{}", got), json!({"value": vdesc(i, &want), "flipped_byte": byte, "residue": r, "expected": exp, "observed": o.describe()}));
+                    }
+                }
+            }
+        }
         if vi == 0 { cx.sample(json!({"type": cx.type_id, "value": format!("{:?}", want), "perturbations": "232 bit flips + reversed cookie + minor/major classes, both modes"})); }
     }
 }
@@ -322,6 +361,23 @@ pub fn c14(t: &dyn TypeOps, cx: &mut Cx, dmax: usize) {
         }
         cx.count(&format!("scripts_D{}", dmax), execs);
         if vi == 0 { cx.sample(json!({"type": cx.type_id, "value": format!("{:?}", want), "scripts_explored": execs, "deviation_bound": dmax})); }
+    }
+    // a large value (payload past 64 KiB) through fragmenting readers and a real BufReader
+    if let Some(i) = first_scalable(t, n) {
+        if let Out::Ok((lb, sval)) = t.ser_scaled(i, 30_000) {
+            for (chunk, eintr) in [(4096usize, false), (8191, false), (65_537, false), (1000, true)] {
+                cx.evals += 1;
+                let mut rd = ScriptReader::new(&lb, Script::default());
+                rd.chunk = chunk;
+                rd.alt_eintr = eintr;
+                let o = t.full_script(&mut rd);
+                cx.transitions += rd.point as u64;
+                match &o {
+                    Out::Ok(x) if *x == sval => cx.outcome("large-chunked-ok"),
+                    o => cx.violate(&format!("large-value-fragmented-{}", if matches!(o, Out::Ok(_)) { "wrong-value".to_string() } else { o.class() }), json!({"value_index": i, "chunk": chunk, "alternate_eintr": eintr, "len": lb.len(), "observed": o.describe()})),
+                }
+            }
+        }
     }
 }
 
